@@ -251,6 +251,24 @@ def cases(tier, seed):
         out.append({"stream": "roundtrip-full", "fn": "roundtrip", "args": ["en", x, [["tok", "YYYY"], ["lit", "-"], ["tok", "MM"], ["lit", "-"], ["tok", "DD"], ["br", "at"]] + iso_tail[1:], now, "full"]})
         out.append({"stream": "roundtrip-full", "fn": "roundtrip", "args": ["en", x, [["tok", "YYYY"], ["lit", "-"], ["tok", "MM"], ["lit", "-"], ["tok", "DD"], ["esc", "T"]] + iso_tail[1:], now, "full"]})
         out.append({"stream": "roundtrip-full", "fn": "roundtrip", "args": ["en", x, [["tok", "YYYY"], ["lit", "-"], ["tok", "MM"], ["lit", "-"], ["tok", "DD"]] + iso_tail, now, "full"]})
+    # zone names of every structural kind through the `z` token: multi-level names (America/Argentina/...), '_', '-', '+', digits.
+    # quick: every three-level name and one name per (first component, character-class signature); thorough: every shipped name
+    import zoneinfo
+    names = sorted(n for n in zoneinfo.available_timezones() if n != "localtime")
+    if not big:
+        seen_sig, pick = set(), []
+        for n in names:
+            sig = (n.split("/")[0] if "/" in n else "", n.count("/"), "_" in n, "-" in n, "+" in n, any(ch.isdigit() for ch in n))
+            if n.count("/") >= 2 or sig not in seen_sig:
+                seen_sig.add(sig)
+                pick.append(n)
+        names = pick
+    zfmt = [["tok", "YYYY"], ["lit", "/"], ["tok", "MM"], ["lit", "/"], ["tok", "DD"], ["br", "T"], ["tok", "HH"], ["lit", ":"], ["tok", "mm"], ["lit", ":"], ["tok", "ss"],
+            ["lit", "."], ["tok", "SSSSSS"], ["lit", " "], ["tok", "z"]]
+    for i, n in enumerate(names):
+        s = mk_dt("zone", n, 1990 + i % 40, 1 + i % 12, 1 + i % 28, 12, i % 60, 59 - i % 60, (i * 7919) % 1000000)
+        if s and s["off"] % 60 == 0:
+            out.append({"stream": "roundtrip-zone-names", "fn": "roundtrip", "args": ["en", s, zfmt, now, "fullz"]})
     # localized month / day names in every locale
     for loc in LOCALES:
         for m in range(1, 13):
